@@ -259,6 +259,7 @@ func (c *Conn) waitGoroutines() error {
 	case <-t.C:
 		return errors.New("failed to wait for timeoutLoop goroutine to exit")
 	}
+	verifEvent(c, "sync:await-tld", nil)
 
 	c.closeReadMu.Lock()
 	closeRead := c.closeReadCtx != nil
@@ -269,6 +270,7 @@ func (c *Conn) waitGoroutines() error {
 		case <-t.C:
 			return errors.New("failed to wait for close read goroutine to exit")
 		}
+		verifEvent(c, "sync:await-crd", nil)
 	}
 
 	select {
@@ -276,6 +278,7 @@ func (c *Conn) waitGoroutines() error {
 	case <-t.C:
 		return errors.New("failed to wait for connection to be closed")
 	}
+	verifEvent(c, "sync:await-closed", nil)
 
 	return nil
 }
@@ -355,6 +358,7 @@ func (c *Conn) casClosing() bool {
 	defer c.closeMu.Unlock()
 	if !c.closing {
 		c.closing = true
+		verifEvent(c, "sync:cas-closing", nil)
 		return true
 	}
 	return false
